@@ -1,8 +1,8 @@
 (* C16 correspondence evaluator: runs the model on a harness case (commands + canonical dump of the REAL catalogue after
-   every step) in the four variants (clip, cleardef) and reports, per variant, the first step at which the model state
-   and the real dump differ; and evaluates wf_b on every real dump. *)
+   every step) in the code variants of [variants] and reports, per variant, the first step at which the model state
+   and the real dump differ; and evaluates wf_b and covered_b on every real dump. *)
 From Coq Require Import ZArith List Bool.
-From OG Require Import C16.Model.
+From OG Require Import C16.Model C16.Expand.
 Import ListNotations.
 Open Scope Z_scope.
 
@@ -15,7 +15,7 @@ Definition lex3 (a1 a2 a3 b1 b2 b3 : Z) : bool :=
   (a1 <? b1) || ((a1 =? b1) && ((a2 <? b2) || ((a2 =? b2) && (a3 <=? b3)))).
 
 Definition canon_pol (p : policy) : policy :=
-  {| rp_db := rp_db p; rp_name := rp_name p; rp_dur := rp_dur p; rp_sgdur := rp_sgdur p; rp_igdur := rp_igdur p; rp_mark := rp_mark p;
+  {| rp_db := rp_db p; rp_name := rp_name p; rp_nm := rp_nm p; rp_dur := rp_dur p; rp_sgdur := rp_sgdur p; rp_igdur := rp_igdur p; rp_mark := rp_mark p;
      rp_msts := sort_by (fun a b => ms_id a <=? ms_id b) (rp_msts p);
      rp_vers := sort_by (fun a b => fst a <=? fst b) (rp_vers p);
      rp_sgs := sort_by (fun a b => lex3 (sg_end a) (sg_start a) (sg_id a) (sg_end b) (sg_start b) (sg_id b)) (rp_sgs p);
@@ -26,7 +26,7 @@ Definition canon (c : cat) : cat :=
      pols := sort_by (fun a b => lex3 (rp_db a) (rp_name a) 0 (rp_db b) (rp_name b) 0) (map canon_pol (pols c));
      nodes := sort_by (fun a b => nd_id a <=? nd_id b) (nodes c);
      ptview := sort_by (fun a b => fst a <=? fst b) (ptview c);
-     ptnum := ptnum c; ptper := ptper c; sclean := sclean c; clampst := clampst c;
+     ptnum := ptnum c; ptper := ptper c; sclean := sclean c; clampst := clampst c; schemafirst := schemafirst c; rekey := rekey c; safecancel := safecancel c;
      max_node := max_node c; max_sg := max_sg c; max_sh := max_sh c; max_mst := max_mst c; max_ig := max_ig c;
      max_ix := max_ix c; max_conn := max_conn c |}.
 
@@ -47,7 +47,7 @@ Definition igroup_eqb (a b : igroup) :=
   (ig_eng a =? ig_eng b) && list_eqb index_eqb (ig_indexes a) (ig_indexes b).
 Definition mst_eqb (a b : mst) := (ms_name a =? ms_name b) && (ms_ver a =? ms_ver b) && (ms_id a =? ms_id b) && Bool.eqb (ms_mark a) (ms_mark b).
 Definition policy_eqb (a b : policy) :=
-  (rp_db a =? rp_db b) && (rp_name a =? rp_name b) && (rp_dur a =? rp_dur b) && (rp_sgdur a =? rp_sgdur b) &&
+  (rp_db a =? rp_db b) && (rp_name a =? rp_name b) && (rp_nm a =? rp_nm b) && (rp_dur a =? rp_dur b) && (rp_sgdur a =? rp_sgdur b) &&
   (rp_igdur a =? rp_igdur b) && Bool.eqb (rp_mark a) (rp_mark b) && list_eqb mst_eqb (rp_msts a) (rp_msts b) &&
   list_eqb pair_eqb (rp_vers a) (rp_vers b) && list_eqb sgroup_eqb (rp_sgs a) (rp_sgs b) && list_eqb igroup_eqb (rp_igs a) (rp_igs b).
 Definition database_eqb (a b : database) := (db_name a =? db_name b) && (db_default a =? db_default b) && Bool.eqb (db_mark a) (db_mark b).
@@ -61,36 +61,44 @@ Definition cat_eqb (a b : cat) :=
   (max_ig a =? max_ig b) && (max_ix a =? max_ix b) && (max_conn a =? max_conn b).
 
 (* ---- one case: commands, the implementation's result (true = no error) and dump after each step ---- *)
-Definition step_obs := (cmd * bool * cat)%type.
+Definition step_obs := (xcmd * bool * cat)%type.
 
 (* first step at which the variant disagrees with the implementation (state or result), None if it never does *)
 Fixpoint check_from (clip cleardef : bool) (i : nat) (c : cat) (tr : list step_obs) : option nat :=
   match tr with
   | [] => None
   | (x, r, d) :: rest =>
-      let '(c', r') := apply clip cleardef c x in
+      let '(c', r') := applyx clip cleardef c x in
       if Bool.eqb r r' && cat_eqb (canon c') (canon d) then check_from clip cleardef (S i) c' rest else Some i
   end.
 
 Definition opt_nat_z (o : option nat) : Z := match o with None => -1 | Some n => Z.of_nat n end.
 
-(* steps whose real dump is not well-formed *)
-Fixpoint wf_fail_from (i : nat) (tr : list step_obs) : list nat :=
+(* steps whose real dump fails a predicate *)
+Fixpoint fail_from (f : cat -> bool) (i : nat) (tr : list step_obs) : list nat :=
   match tr with
   | [] => []
-  | (_, _, d) :: rest => if wf_b d then wf_fail_from (S i) rest else i :: wf_fail_from (S i) rest
+  | (_, _, d) :: rest => if f d then fail_from f (S i) rest else i :: fail_from f (S i) rest
   end.
 
-(* per variant (clip, cleardef, clamp), in the order of [variants]: first disagreeing step or -1; -2 when the case is not modelled *)
-Definition variants : list (bool * bool * bool) :=
-  [(false, false, false); (true, false, false); (false, true, false); (true, true, false);
-   (false, false, true); (true, false, true); (false, true, true); (true, true, true)].
-Record verdict := { v_match : list Z; v_wf : list nat }.
+(* code variants (clip, cleardef, clampst, schemafirst, rekey, safecancel), in the order run.py names them:
+   today's tree, today's tree with the offered repair of one or both open findings, and today's tree with one landed repair
+   taken out again *)
+Definition variants : list (bool * bool * bool * bool * bool * bool) :=
+  [(false, true, true, true, true, false);     (* head *)
+   (true, true, true, true, true, false);      (* head + clip *)
+   (false, true, true, true, true, true);      (* head + safecancel *)
+   (true, true, true, true, true, true);       (* every repair *)
+   (false, false, true, true, true, false);    (* head without b424c13 *)
+   (false, true, false, true, true, false);    (* head without 3695b47 *)
+   (false, true, true, false, true, false);    (* head without f21700b *)
+   (false, true, true, true, false, false)].   (* head without f36a23d *)
+Record verdict := { v_match : list Z; v_wf : list nat; v_cover : list nat }.
 
 Definition check_case (per : Z) (sc : bool) (modelled : bool) (tr : list step_obs) : verdict :=
-  {| v_match := map (fun v => match v with (clip, cleardef, clamp) =>
-                        if modelled then opt_nat_z (check_from clip cleardef 0 (init_cat_v per sc clamp) tr) else -2 end) variants;
-     v_wf := wf_fail_from 0 tr |}.
+  {| v_match := map (fun v => match v with (clip, cleardef, clamp, sf, rk, sca) =>
+                        if modelled then opt_nat_z (check_from clip cleardef 0 (init_cat_o per sc clamp sf rk sca) tr) else -2 end) variants;
+     v_wf := fail_from wf_b 0 tr; v_cover := fail_from covered_b 0 tr |}.
 
 Definition check_cases (l : list (Z * bool * bool * list step_obs)) : list verdict :=
   map (fun x => match x with (per, sc, m, tr) => check_case per sc m tr end) l.
